@@ -736,7 +736,7 @@ def script_token(tok, spec):
         isflt = spec is not None and FMTS[spec["fmt"]] == "FFloat"
         if not isflt and k == "D" and d == int(d):
             return ("int", int(d))                      # a Lua number that holds an integer
-        size = spec["size"] if isflt else 8
+        size = 4 if isflt and spec["size"] == 4 else 8       # double and long double arrive as a double
         try:
             bits = int.from_bytes(struct.pack("<f", d), "little") if size == 4 else \
                 int.from_bytes(struct.pack("<d", d), "little")
@@ -1263,10 +1263,12 @@ class E2EGen:
             lit = "(%s)%d%s" % (ct, v, "ULL" if not signed and bits == 64 else ("LL" if bits == 64 else ""))
             if v == lo and signed and bits >= 32:
                 lit = "(%s)(%d%s - 1)" % (ct, v + 1, "LL" if bits == 64 else "")
-            return lit, ["txt", int_cands(v, bits)]
+            return lit, ["txt", int_cands(v, bits), ["ints", sorted(set(int(x, 0) if not x.startswith("0") or x == "0" or
+                                                                       x.startswith("0x") else int(x, 8)
+                                                                       for x in int_cands(v, bits)))]]
         if kind == "char":
             ch = r.choice("xyzAZ09 _-+")
-            return "'%s'" % ch, ["txt", ["'%s'" % ch]]
+            return "'%s'" % ch, ["txt", ["'%s'" % ch], ["str", ch]]
         if kind == "str":
             if r.random() < 0.1:
                 return "(const char *)0", ["null"]
@@ -1276,12 +1278,13 @@ class E2EGen:
         if kind == "flt":
             v = r.choice([0.0, 1.5, -2.25, 1024.125, -0.5, 3.25, 100000.0, r.randrange(-4000, 4000) / 8.0])
             sfx = {32: "f", 64: "", 80: "L"}[bits]
-            return "%r%s" % (v, sfx), ["txt", ["%f" % v]]
+            fb = int.from_bytes(struct.pack("<f", v), "little") if bits == 32 else int.from_bytes(struct.pack("<d", v), "little")
+            return "%r%s" % (v, sfx), ["txt", ["%f" % v], ["flt", 4 if bits == 32 else 8, fb]]
         if kind == "struct":
             return ("(struct big){1, 2, 3}" if "big" in ct else "(struct pair){7, 8}"), ["struct"]
         if kind == "nullptr":
-            return "(int *)0", ["txt", ["0"]]
-        return "g0", ["txt", ["&g0"]]
+            return "(int *)0", ["txt", ["0"], ["ints", [0]]]
+        return "g0", ["txt", ["&g0"], ["anyint"]]
 
     def function(self, k, types=None):
         r = self.rng
@@ -1321,7 +1324,87 @@ def e2e_aval(a):
     return "AStruct"
 
 
-def e2e_run(ctx, impl, funcs, tag, extra_opts=(), judge_ret=True):
+def e2e_saval(a, record_time):
+    """what a script must receive for the C-level value a"""
+    if a[0] == "txt":
+        k = a[2]
+        if k[0] == "ints":
+            return "AScr [%s] [] []" % "; ".join("(%d)%%Z" % x for x in k[1])
+        if k[0] == "str":
+            return "AScr [] [%s] []" % blist(k[1].encode())
+        if k[0] == "flt":
+            # libmcount cannot touch floating-point values: listed finding script-record-float
+            return ("AScr [] [%s] []" % blist(b"<float>")) if record_time else "AScr [] [] [(%d, %s)]" % (k[1], num(k[2]))
+        return "AAnyInt"
+    return e2e_aval(a)
+
+
+def parse_e2e_script(out, funcs, specs_of):
+    """lines of the logging script -> {name: {"args": [...] | None, "ret": [...] | None}} for the calls of depth 1"""
+    res = {}
+    for line in out.decode("latin-1").split("\n"):
+        k = line.split(" ")
+        if len(k) < 4 or k[0] not in ("E", "X") or k[2] != "1" or k[1] not in specs_of:
+            continue
+        pa, pr = specs_of[k[1]]
+        d = res.setdefault(k[1], {"args": None, "ret": None, "n": 0})
+        if k[0] == "E":
+            d["n"] += 1
+            d["args"] = None if k[3] == "-" else [script_token(t, pa[i] if i < len(pa) else None) for i, t in enumerate(k[4:])]
+        else:
+            d["ret"] = None if k[3] == "-" else [script_token(t, pr[0] if pr else None) for t in k[4:5]]
+    return res
+
+
+def e2e_scripts(ctx, impl, funcs, items, d, data, exe, tag):
+    """what scripts receive for the calls of a traced program: at analysis time (uftrace script, python and lua, on
+    the recorded data) and at record time (uftrace record -S, python and lua).  returns [(func, problem)]"""
+    uft = os.path.join(impl.objdir, "uftrace")
+    specs_of = {f["name"]: (pa, pr) for f, pa, pr in items}
+    runs = []
+    for lang, text in (("py", LOG_PY), ("lua", LOG_LUA)):
+        sc = os.path.join(d, "log." + lang)
+        open(sc, "w").write(text)
+        p = subprocess.run(["timeout", "60", uft, "script", "--no-pager", "-S", sc, "-d", data], capture_output=True, timeout=90)
+        runs.append((lang, False, p))
+        p = subprocess.run(["timeout", "60", uft, "record", "--no-pager", "--no-event", "--libmcount-path=" + impl.objdir,
+                            "-a", "-S", sc, "-d", data + "-" + lang, exe], capture_output=True, timeout=90, cwd=d)
+        runs.append((lang, True, p))
+    out, terms, index = [], [], []
+    for lang, rec, p in runs:
+        if p.returncode != 0:
+            out.append((items[0][0], "uftrace %s -S log.%s fails: rc=%d %s" % ("record" if rec else "script", lang, p.returncode,
+                                                                         p.stderr[-300:].decode("latin-1"))))
+            continue
+        seen = parse_e2e_script(p.stdout, funcs, specs_of)
+        for f, pa, pr in items:
+            o = seen.get(f["name"])
+            if o is None or o["n"] != 1:
+                out.append((f, "%s-time %s script: no (or repeated) entry callback for %s" % ("record" if rec else "analysis", lang, f["name"])))
+                continue
+            def opt(x):
+                return "None" if x is None else "Some [%s]" % "; ".join(coq_oitem(i) for i in x)
+            terms.append("(%s, [%s], [%s], %s, %s)" % (
+                "Py" if lang == "py" else "Lua",
+                "; ".join("(%s, %s)" % (coq_spec(sp), e2e_saval(a, rec)) for sp, a in zip(pa, f["actual"])),
+                "; ".join("(%s, %s)" % (coq_spec(sp), e2e_saval(f["ractual"], rec)) for sp in pr[:1]),
+                opt(o["args"]), opt(o["ret"])))
+            index.append((f, lang, rec, o))
+            if rec and any(i == ("str", b"<float>") for i in (o["args"] or []) + (o["ret"] or [])):
+                impl.record_float_placeholder = {"function": f["src"], "call": f["call"].strip(), "lang": lang,
+                                                 "args": repr(o["args"]), "retval": repr(o["ret"])}
+    if terms:
+        defs = ("Definition items : list (lang * list (spec * aval) * list (spec * aval) * option (list oitem) * "
+                "option (list oitem)) := [\n%s\n].\n" % ";\n".join(terms))
+        res = coq.run_cases(ctx, "e2es_" + re.sub(r"\W", "_", tag), PRE, defs, [
+            ("bad", "bad_indices (fun x => match x with (l, a, r, oa, or) => ok_script_args l a oa && ok_script_ret l r or end) items 0")])
+        for i in (coq.parse_nat_list(res["bad"]) if res else []):
+            f, lang, rec, o = index[i]
+            out.append((f, "%s-time %s script receives args=%r retval=%r" % ("record" if rec else "analysis", lang, o["args"], o["ret"])))
+    return out
+
+
+def e2e_run(ctx, impl, funcs, tag, extra_opts=(), judge_ret=True, scripts=False):
     """compile, record with --auto-args (+ extra -A/-R options), replay; returns list of (func, problem or None).
     judge_ret=False: the extra options put further return value specs in front, only the arguments and the
     completeness of the call sequence are judged"""
@@ -1393,6 +1476,8 @@ def e2e_run(ctx, impl, funcs, tag, extra_opts=(), judge_ret=True):
         bad = set(coq.parse_nat_list(res["bad"])) if res else set()
         for i, (f, pa, pr) in enumerate(items):
             out.append((f, ("replay shows %s%s" % f["shown"]) if i in bad else None))
+        if scripts:
+            out += e2e_scripts(ctx, impl, funcs, items, d, data, exe, tag)
     return out
 
 
@@ -1442,7 +1527,8 @@ def e2e(ctx, impl):
         both = ["-R", "^g[0-9]+$@retval/f", "-R", "^g[1-9][0-9]*$@retval/x"]
         for variant, opts, judge_ret in (("auto-args", [], True), ("auto-args+explicit-retvals", both, False)):
             nbad = 0
-            for f, problem in e2e_run(ctx, impl, funcs, "p%d%s" % (rnd, "x" if opts else ""), opts, judge_ret):
+            for f, problem in e2e_run(ctx, impl, funcs, "p%d%s" % (rnd, "x" if opts else ""), opts, judge_ret,
+                                      scripts=not opts):
                 if f is None:
                     ctx.broken("end-to-end run failed: " + problem)
                     continue
@@ -1456,6 +1542,11 @@ def e2e(ctx, impl):
                                       {"mode": "e2e", "program": e2e_program(funcs), "function": f["name"],
                                        "record_options": ["-a"] + opts, "specs": f.get("specs"),
                                        "rspecs": f.get("rspecs"), "shown": f.get("shown")}, True)
+    ph = getattr(impl, "record_float_placeholder", None)
+    found.append(("script-record-float",
+                  "at record time (uftrace record -S) a floating-point argument or return value is not available to the "
+                  "script: ctx[\"args\"] carries the placeholder \"<float>\" instead of the value",
+                  ph is not None, {"mode": "e2e-witness", "witness": "script-record-float", "observed": ph}))
     return found
 
 
